@@ -1,4 +1,4 @@
-Require Import OPC.gen.GenKinds OPC.Uni OPC.Names OPC.Codec OPC.CodecThm OPC.Types OPC.TypesThm OPC.Endpoint OPC.EndpointThm.
+Require Import OPC.gen.GenKinds OPC.Uni OPC.Names OPC.Codec OPC.CodecThm OPC.Types OPC.TypesThm OPC.Endpoint OPC.EndpointThm OPC.Returns.
 From Coq Require Import NArith ZArith List Bool. Import ListNotations. Open Scope N_scope.
 
 (* every value produced by decoding schema-valid data is an instance of the annotated type *)
@@ -27,3 +27,18 @@ Theorem C11_decoded_value_accepted_by_encoder : forall orc T f k j,
   table_ok T = true -> k_ok k = true -> wf_json j = true -> valid orc T f k j = true ->
   exists v, dec orc T f k j = Some v /\ enc T f k v = Some j.
 Proof. exact roundtrip. Qed.
+
+(* the RETURN annotation of every endpoint function (Optional[Union of all documented response types]) is truthful: whatever
+   _parse_response returns for a documented status inhabits it; every member of the union is needed *)
+Theorem C11_return_annotation_truthful : forall orc T f rs flag h r j v,
+  table_ok T = true -> k_ok (rs_kind r) = true -> wf_json j = true ->
+  documented rs (h_status h) = Some r -> source_value (rs_source r) h = Some j ->
+  valid orc T f (rs_kind r) j = true ->
+  parse_response orc T f rs true flag h = PVal (Some v) -> inhabits v (response_ty rs) = true.
+Proof. exact return_annotation_truthful. Qed.
+Print Assumptions C11_return_annotation_truthful.
+Theorem C11_none_inhabits_return_ty : forall rs, inhabits (PJ JNull) (return_ty rs) = true.
+Proof. exact none_inhabits_return_ty. Qed.
+Theorem C11_dropped_member_refuted : exists ks v, inhabits v (response_ty_kinds ks) = true /\
+  inhabits v (response_ty_kinds (filter (fun k => match k with KAny => false | _ => true end) ks)) = false.
+Proof. exact dropped_member_refuted. Qed.
